@@ -577,6 +577,9 @@ func pure(e *Expr) bool {
 }
 
 // isLoopHeader reports whether b has an incoming back edge.
+// NeverReturns reports whether fn has a body and every call of it ends in panic.
+func NeverReturns(fn *ssa.Function) bool { return neverReturns(fn) != nil }
+
 var noRet = map[*ssa.Function]*ssa.Panic{}
 
 // neverReturns returns the panic instruction of a function with a body none of
